@@ -265,10 +265,14 @@ def compare_training(wd, lines, enc, acc, case, raw_bytes=None, keep_existing=Fa
         fails.append(('load', 'guesser cannot load the trained ruleset: %r' % (e,)))
     sg = ScorerGrammar()
     sink = io.StringIO()
+    why = ''
     with contextlib.redirect_stdout(sink), contextlib.redirect_stderr(sink):
-        oks = tree.imp('lib_scorer.grammar_io').load_grammar(sg, base)
+        try:
+            oks = tree.imp('lib_scorer.grammar_io').load_grammar(sg, base)
+        except Exception as e:
+            oks, why = False, ': %r' % (e,)
     if not oks:
-        fails.append(('load', 'scorer cannot load the trained ruleset'))
+        fails.append(('load', 'scorer cannot load the trained ruleset' + why))
     folders = {'Alpha': ('A', 'count_alpha'), 'Capitalization': ('C', 'count_alpha_masks'), 'Digits': ('D', 'count_digits'),
                'Other': ('O', 'count_other'), 'Keyboard': ('K', 'count_keyboard')}
     for folder, (k, attr) in folders.items():
@@ -306,7 +310,13 @@ def compare_training(wd, lines, enc, acc, case, raw_bytes=None, keep_existing=Fa
     import configparser
     import json
     cfg = configparser.ConfigParser()
-    cfg.read(os.path.join(base, 'config.ini'))
+    try:
+        # read the way every tool reads it: as platform text - this is the file that says which encoding the others are in
+        cfg.read(os.path.join(base, 'config.ini'))
+        cfg['BASE_A']['directory']
+    except Exception as e:
+        fails.append(('config', 'config.ini of the %s ruleset cannot be read as the tools read it (platform text): %r' % (enc, e)))
+        return fails
     for sec in ('BASE_A', 'BASE_D', 'BASE_O', 'BASE_K', 'BASE_X', 'BASE_Y', 'CAPITALIZATION'):
         d = cfg[sec]['directory']
         names = sorted(json.loads(cfg[sec]['filenames']))
